@@ -726,6 +726,43 @@ fn cli_run_test(c: &CliRunCase, obs: &mut Obs) -> CheckResult {
 #[allow(dead_code)]
 fn _unused(_: SimCase) {}
 
+// ---------------------------------------------------------------------------------------------
+// values with a special meaning: `tui-max-addrs = 0` means "no maximum" (None).  The layering rule
+// applies to the value as given (a CLI 0 overrides a file 3), the special meaning afterwards.
+
+#[derive(Clone, Debug, Serialize, Deserialize)]
+pub struct SentinelCase {
+    pub file: Option<u8>,
+    pub cli: Option<u8>,
+}
+
+fn sentinel_cases(_: Tier) -> Vec<SentinelCase> {
+    let vals = [None, Some(0u8), Some(1), Some(3), Some(255)];
+    let mut v = vec![];
+    for f in vals {
+        for c in vals {
+            v.push(SentinelCase { file: f, cli: c });
+        }
+    }
+    v
+}
+
+fn sentinel_test(c: &SentinelCase, obs: &mut Obs) -> CheckResult {
+    let mut argv: Vec<String> = vec!["trip".into(), "example.com".into()];
+    if let Some(n) = c.cli {
+        argv.push("--tui-max-addrs".into());
+        argv.push(n.to_string());
+    }
+    let toml_text = c.file.map_or(String::new(), |n| format!("[tui]\ntui-max-addrs = {n}\n"));
+    let args = Args::try_parse_from(&argv).map_err(|e| Fail::new("sentinel:cli-rejected", e.to_string()))?;
+    let file: ConfigFile = toml::from_str(&toml_text).map_err(|e| Fail::new("sentinel:file-rejected", e.to_string()))?;
+    let cfg = build_config(args, file, &Privilege::new(true, false), 1).map_err(|e| Fail::new("sentinel:rejected", format!("{e}")))?;
+    let want = c.cli.or(c.file).filter(|n| *n > 0);
+    vensure!(cfg.tui_max_addrs == want, "precedence:tui-max-addrs:sentinel", "file {:?}, command line {:?}: tui_max_addrs = {:?}, expected {want:?}", c.file, c.cli, cfg.tui_max_addrs);
+    obs.nontrivial(&(c.file, c.cli));
+    Ok(())
+}
+
 pub fn check() -> PropertyCheck {
     PropertyCheck {
         id: "C16",
@@ -738,6 +775,7 @@ pub fn check() -> PropertyCheck {
         subs: vec![
             Box::new(Pbt { name: "layering", quick: 150_000, thorough: 2_000_000, strat: layer_strat, test: layer_test, max_shrink: 4000 }),
             Box::new(Pbt { name: "builder", quick: 60_000, thorough: 5_000_000, strat: build_strat, test: build_test, max_shrink: 3000 }),
+            Box::new(Enumerated { name: "special-values", exhaustive_note: Some("tui-max-addrs: file x command line over {absent, 0, 1, 3, 255}"), cases: sentinel_cases, test: sentinel_test }),
             Box::new(Pbt { name: "cli-run", quick: 60_000, thorough: 2_000_000, strat: cli_run_strat, test: cli_run_test, max_shrink: 3000 }),
         ],
     }
